@@ -27,4 +27,23 @@ PROPS = {
         "what": "Bucket ordering contract: Signature.less / Stack.less are strict weak orders on all signatures (irrefl, asymm, trans, incomparability transitive), never index out of range, stdlib-only stacks sort last; harness: order laws on all pairs/triples of a universe on the implementation, bucket order oracle, correspondence.",
         "trusted": AGG_TRUST,
     },
+    "C06": {
+        "lean": ["PP.Props.C06", "PP.Props.C15", "PP.Tie.Agg", "PP.Tie.Globals"],
+        "what": "Determinism: aggregate_oracle_indep (the buckets, their order and merged signatures do not depend on map iteration order, for every pair of order oracles), bucket_contents_oracle_indep, aggregate_sorted_unique (nor on the stable-sort algorithm), nameTable is a function of the snapshot (C15 lemmas); pins: no function assigns to a package-level variable; harness: repeated execution in one process and across processes on inputs biased to comparator ties and nested roots, byte comparison of buckets, console text and HTML (time masked).",
+        "trusted": AGG_TRUST + ["text/template ranges over maps in sorted key order", "no goroutines are started by the library (checked by reading; covered by C14's race runs)"],
+        "assumptions": ["at most one goroutine is flagged first (what the scanner produces: scan_first_flags)", "arguments well-formed (parse_wf)"],
+    },
+    "C12": {
+        "lean": ["PP.Props.C12", "PP.Tie.Agg"],
+        "what": "A bucket's signature generalises its members: bucket_sleep_range (exact min/max), bucket_locked_iff_any, bucket_state_creator_frames, bucket_fields_from_first_member, flat_same_length, arg_unchanged_if_common, arg_star_if_differs, no_partial_value, exact_levels_no_star — for every arrival order and map order; harness: generalisation recomputed from the implementation's own snapshot and bucket ids.",
+        "trusted": AGG_TRUST,
+        "assumptions": ["goroutine ids distinct", "arguments well-formed where the key must stay similar to its members"],
+    },
+    "C15": {
+        "lean": ["PP.Props.C15"],
+        "what": "Pointer pseudo-names: nameTable_keys_nodup/same_value_same_name, nameTable_injective, nameTable_dense (#1..#k), recurring_named, primary_first, ascending_within_class, nonptr_unnamed, only_names_change; harness: the labelling laws evaluated on the implementation's snapshots (naming on/off), correspondence of nameArguments with the model on parsed and constructed snapshots.",
+        "trusted": ["sort.Sort on uint64 keys is a correct sort (modelled by insertion into a sorted duplicate-free list)"],
+    },
 }
+
+NOT_CLAIMED = {}
